@@ -689,7 +689,8 @@ def mr_consts(c):
             "Writers = " + tla_set(c["writers"]), "MaxConns = %d" % c["maxconns"], "MaxGrams = %d" % c.get("grams", 1),
             "MaxWrites = %d" % c.get("writes", 1), "MaxRemoves = %d" % c.get("removes", 1), "MaxCloses = %d" % c.get("closes", 1),
             "StaleWrites = %s" % ("TRUE" if c.get("stale") else "FALSE"), "MuxClose = %s" % ("TRUE" if c.get("muxclose") else "FALSE"),
-            "SetupFirst = %s" % ("TRUE" if c.get("setupfirst") else "FALSE"), "MaxOps = %d" % c.get("ops", 0)]
+            "SetupFirst = %s" % ("TRUE" if c.get("setupfirst") else "FALSE"), "MaxOps = %d" % c.get("ops", 0),
+            "Defects = " + tla_set(c.get("defects", []))]
 
 
 def mr_job(c):
@@ -703,7 +704,8 @@ def mr_config(work, binary, verdict, stats, seed, key, c, timeout=900):
     consts = mr_consts(c)
     d = Dir(work.path("mc-" + key))    # every TLC run in a directory of its own (parallel runs must not share a metadir)
     cfg = write_cfg(d, "MC_%s.cfg" % key, ["SPECIFICATION %s" % ("SeqSpec" if seq else "Spec"), "CONSTANTS"] + consts +
-                    (["CONSTRAINT SeqBound"] if seq else []) + ["INVARIANTS TypeOK AtMostOne PerConnFifo ClosedEmpty", "CHECK_DEADLOCK FALSE"])
+                    (["CONSTRAINT SeqBound"] if seq else []) +
+                    ["INVARIANTS TypeOK AtMostOne PerConnFifo ClosedEmpty GoneAfterRemove ListedUnlessGone", "CHECK_DEADLOCK FALSE"])
     r = model_check(d, "MuxRoute", cfg, stats, key, timeout, dump=d.path(key + ".dot"))
     must_hold(r, key)
     g = Graph(d.path(key + ".dot"))
@@ -712,21 +714,40 @@ def mr_config(work, binary, verdict, stats, seed, key, c, timeout=900):
            graph=g, cover_key=key, nshards=c.get("shards", 4))
 
 
-def mr_cex(work, binary, verdict, stats, seed, key, c, invariant="GoneAfterRemove"):
-    """TLC's counterexample to a C12 invariant of the model becomes a directed schedule for the real mux."""
+# generous bounds for directed schedules (the trace spec's guards must not get in the way of a schedule suggestion)
+MR_FREE = {"grams": 8, "writes": 8, "removes": 8, "closes": 8, "stale": True, "muxclose": True, "setupfirst": False, "ops": 99, "defects": []}
+
+
+def mr_cex(work, binary, verdict, stats, seed, key, c, invariant="GoneAfterRemove", suffix=()):
+    """Regression scenario from TLC: the model with a pre-repair Defects switch on violates the invariant; TLC's
+    counterexample (plus a suffix of dispatches that lets the monitor look at the result) is replayed on the real mux,
+    recorded, validated against the *repaired* specification and judged by the monitor."""
     seq = c["mode"] == "seq"
-    consts = mr_consts(c)
     d = Dir(work.path("mc-" + key))
-    cfg = write_cfg(d, "MC_%s.cfg" % key, ["SPECIFICATION %s" % ("SeqSpec" if seq else "Spec"), "CONSTANTS"] + consts +
+    cfg = write_cfg(d, "MC_%s.cfg" % key, ["SPECIFICATION %s" % ("SeqSpec" if seq else "Spec"), "CONSTANTS"] + mr_consts(c) +
                     (["CONSTRAINT SeqBound"] if seq else []) + ["INVARIANT " + invariant, "CHECK_DEADLOCK FALSE"])
     r = v.require(v.tlc(d.dir, "MuxRoute", cfg=cfg, timeout=600), key)
     cex = cex_path(r.out) if r.invariants_violated else []
     with LOCK:
-        stats.setdefault("model_counterexamples", []).append({"spec": "MuxRoute", "cfg": key, "invariant": invariant, "found": bool(cex),
-                                                              "states": r.distinct, "schedule": cex})
-    if cex:
-        replay(work, binary, "mr", [cex], mr_job(c), consts, MR_SEQ_PREDS if seq else MR_CONC_PREDS, key, seed, stats, verdict,
-               cover_key=key, nshards=1)
+        stats.setdefault("model_counterexamples", []).append({"spec": "MuxRoute", "cfg": key, "defects": c.get("defects", []), "invariant": invariant,
+                                                              "found": bool(cex), "states": r.distinct, "schedule": cex + list(suffix)})
+    if not cex:
+        raise v.Inconclusive("%s: TLC found no counterexample to %s with Defects = %s" % (key, invariant, c.get("defects")))
+    free = dict(c, **MR_FREE)
+    replay(work, binary, "mr", [cex + list(suffix)], mr_job(free), mr_consts(free), MR_SEQ_PREDS if seq else MR_CONC_PREDS, key, seed, stats,
+           verdict, cover_key=key, nshards=1)
+
+
+def mr_regress(work, binary, verdict, stats, seed):
+    """The recorded schedules of the repaired defects (specs/udpmux/regress.json), replayed in every run."""
+    lib = json.load(open(os.path.join(v.SPECS, FAMILY, "regress.json")))["schedules"]
+    for mode in ("seq", "conc"):
+        paths = [x["path"] for x in lib if x["mode"] == mode]
+        c = dict(MR_BASE, mode=mode, writers=["w1", "w2"] if mode == "conc" else ["w1"], **MR_FREE)
+        replay(work, binary, "mr", paths, mr_job(c), mr_consts(c), MR_SEQ_PREDS if mode == "seq" else MR_CONC_PREDS,
+               "MuxRoute_regress_" + mode, seed, stats, verdict, cover_key="MuxRoute_regress_" + mode, nshards=1)
+    with LOCK:
+        stats["regression_schedules"] = [x["id"] for x in lib]
 
 
 MR_BASE = {"ufrags": ["u1", "u2"], "fams": ["4", "6"], "srcs": ["s1", "m1", "s6"], "kinds": ["data", "u1", "u2", "ux"], "writers": ["w1"],
@@ -737,18 +758,25 @@ def mr_run(work, binary, verdict, stats, tier, seed):
     quick = tier == "quick"
     seqc = dict(MR_BASE, ops=6 if quick else 7)
     conc_a = {"mode": "conc", "ufrags": ["u1", "u2"], "fams": ["4"], "srcs": ["s1"], "kinds": ["data", "u1"], "writers": ["w1", "w2"],
-              "maxconns": 2, "grams": 1 if quick else 2, "writes": 2, "removes": 1, "closes": 0, "stale": False, "setupfirst": True}
+              "maxconns": 2, "grams": 1 if quick else 2, "writes": 2, "removes": 1, "closes": 0, "stale": True, "setupfirst": True}
     conc_b = {"mode": "conc", "ufrags": ["u1"], "fams": ["4"], "srcs": ["s1", "m1"] if not quick else ["s1"], "kinds": ["data", "u1"],
-              "writers": ["w1", "w2"], "maxconns": 1, "grams": 2, "writes": 2, "removes": 1, "closes": 1, "stale": False, "setupfirst": True}
-    cex_a = dict(MR_BASE, ops=5)
-    cex_b = dict(conc_a, grams=1)
-    cex_a2 = dict(conc_a, grams=1, stale=True, ufrags=["u1"], maxconns=1)     # the stale-handle form, through the gates
+              "writers": ["w1", "w2"], "maxconns": 1, "grams": 2, "writes": 2, "removes": 1, "closes": 1, "stale": True, "setupfirst": True}
+    cex_a = dict(MR_BASE, ops=5, defects=["a"])
+    cex_b = dict(conc_a, grams=1, defects=["a"])
+    cex_a2 = dict(conc_a, grams=1, stale=True, ufrags=["u1"], maxconns=1, defects=["a"])     # the stale-handle form, through the gates
+    cex_c = dict(MR_BASE, ops=5, defects=["c"])
+    cex_d = dict(conc_b, srcs=["s1"], grams=1, closes=0, defects=["d"])
+    probe_seq = ["DispatchOp(%s,%s)" % (x, k) for x in ("s1", "m1", "s6") for k in ("data", "u1", "u2")]
+    probe_conc = ["DRead(s1,data)", "DLookup", "DUfrag", "DEnq", "DRead(s1,u1)", "DLookup", "DUfrag", "DEnq"]
     jobs = [lambda: mr_config(work, binary, verdict, stats, seed, "MuxRoute_seq", seqc, 1500),
             lambda: mr_config(work, binary, verdict, stats, seed, "MuxRoute_conc_2conns", conc_a, 1500),
             lambda: mr_config(work, binary, verdict, stats, seed, "MuxRoute_conc_1conn", conc_b, 1500),
-            lambda: mr_cex(work, binary, verdict, stats, seed, "MuxRoute_cex_stale_handle", cex_a),
-            lambda: mr_cex(work, binary, verdict, stats, seed, "MuxRoute_cex_removal_race", cex_b),
-            lambda: mr_cex(work, binary, verdict, stats, seed, "MuxRoute_cex_stale_handle_gated", cex_a2)]
+            lambda: mr_cex(work, binary, verdict, stats, seed, "MuxRoute_cex_stale_handle", cex_a, suffix=probe_seq),
+            lambda: mr_cex(work, binary, verdict, stats, seed, "MuxRoute_cex_removal_race", cex_b, suffix=probe_conc),
+            lambda: mr_cex(work, binary, verdict, stats, seed, "MuxRoute_cex_stale_handle_gated", cex_a2, suffix=probe_conc),
+            lambda: mr_cex(work, binary, verdict, stats, seed, "MuxRoute_cex_close_sibling", cex_c, "ListedUnlessGone", suffix=probe_seq),
+            lambda: mr_cex(work, binary, verdict, stats, seed, "MuxRoute_cex_duplicate_registration", cex_d, suffix=probe_conc),
+            lambda: mr_regress(work, binary, verdict, stats, seed)]
     parallel(jobs, 3)
 
 
@@ -818,7 +846,8 @@ MANIFEST = {
             "and all interleavings of 2 writers + dispatcher + remover (+ Close) at yield-point granularity. Every edge of these graphs is "
             "replayed on a real UDPMuxDefault over a fake socket (sequential ones directly, concurrent ones and TLC's counterexamples "
             "through gates); the monitor judges AtMostOne, RightOne (sequentially consistent reference), Identical, PerConnFifo, "
-            "NoForeignUfrag, GoneAfterRemove on every recorded step.", UDPMUX_NOTE, UDPMUX_TECH),
+            "NoForeignUfrag, GoneAfterRemove on every recorded step. The counterexample schedules of the repaired defects F-C12a/a-r/b/b2/c/d "
+            "(TLC runs with the spec's Defects switches, plus specs/udpmux/regress.json) are replayed in every run and must pass.", UDPMUX_NOTE, UDPMUX_TECH),
     "C13": ("model_checking", "5.C13",
             "MuxWrite.tla (write-abort state machine, every Load/CAS/Store/SetWriteDeadline/socket write its own action, arm-failure fault) "
             "model-checked exhaustively for 2 writers x 2 aborters (quick) and 3 x 2 plus two writes per writer (thorough) incl. liveness; "
@@ -852,7 +881,7 @@ def replay_file(path):
             seq = job["mode"] == "seq"
             c = {"mode": job["mode"], "ufrags": job["ufrags"], "fams": job["fams"], "srcs": ["s1", "m1", "s2", "m2", "s6", "t6"],
                  "kinds": ["data", "ux"] + job["ufrags"], "writers": job["writers"], "maxconns": job["maxconns"], "grams": 8, "writes": 8,
-                 "removes": 8, "closes": 8, "stale": True, "muxclose": True, "ops": 99}
+                 "removes": 8, "closes": 8, "stale": True, "muxclose": True, "ops": 99, "defects": []}
             c["srcs"] = [x for x in c["srcs"] if canon(x) in job["keys"]]
             consts, preds = mr_consts(c), (MR_SEQ_PREDS if seq else MR_CONC_PREDS)
         replay(work, binary, fam, [rp["path"]], job, consts, preds, "replay", 0, stats, verdict, nshards=1)
